@@ -371,6 +371,21 @@ def state_obligations(graph):
             elif isinstance(n, ast.AnnAssign) and isinstance(n.target, ast.Name):
                 names.add(n.target.id)
         module_names[mod] = names
+    # module-level names bound to a mutable container: name -> has nested mutable elements
+    module_mutables = {}
+    for mod, (tree, _s, _p) in graph.mods.items():
+        mm = {}
+        for n in tree.body:
+            v, tg = None, []
+            if isinstance(n, ast.Assign):
+                v, tg = n.value, [t.id for t in n.targets if isinstance(t, ast.Name)]
+            elif isinstance(n, ast.AnnAssign) and n.value is not None and isinstance(n.target, ast.Name):
+                v, tg = n.value, [n.target.id]
+            if v is not None and _mutable_expr(v):
+                for t in tg:
+                    if t != "__all__":
+                        mm[t] = any(_mutable_expr(x) for x in ast.walk(v) if x is not v)
+        module_mutables[mod] = mm
     for fid, f in sorted(graph.funcs.items()):
         is_mod = f.qual == "<module>"
         own = termination._own_nodes(f) if not is_mod else list(ast.walk(f.node))
@@ -415,6 +430,38 @@ def state_obligations(graph):
                             add("module-attribute-store", n, False, "stores attribute %s on module %s" % (t.attr, d))
                     if isinstance(t, ast.Subscript) and isinstance(t.value, ast.Name) and not is_mod and t.value.id not in f.locals and t.value.id in module_names.get(f.mod, ()):
                         add("module-object-mutation", n, False, "item assignment into module-level `%s`" % t.value.id)
+        # module-level mutable templates: handing out (a shallow copy of) a container whose elements are themselves
+        # mutable shares those elements between calls; handing the container itself to a callee that mutates its
+        # parameter changes the module-level object
+        if not is_mod:
+            par = termination._parents(f.node)
+            for n in own:
+                if not (isinstance(n, ast.Name) and isinstance(n.ctx, ast.Load) and n.id not in f.locals and n.id in module_mutables.get(f.mod, {})):
+                    continue
+                nested = module_mutables[f.mod][n.id]
+                up = par.get(id(n))
+                # deepcopy(M) / len(M) / `k in M` never alias an element
+                if isinstance(up, ast.Call) and n in up.args and ast.unparse(up.func).split(".")[-1] in ("deepcopy", "len", "frozenset", "sorted", "dumps"):
+                    continue
+                if isinstance(up, ast.Compare) and n in up.comparators:
+                    continue
+                if nested:
+                    add("shared-mutable-template", n, False,
+                        "module-level `%s` holds nested mutable containers; this use (%s) hands them out without a deep copy, so every call shares -- and may mutate -- the same inner objects"
+                        % (n.id, ast.unparse(up)[:60] if up is not None else n.id))
+                    continue
+                # flat container: passed whole to a repo callee that mutates the corresponding parameter
+                if isinstance(up, ast.Call) and n in up.args:
+                    callee = graph.resolve_dotted(graph.dotted_of(f.mod, up.func, f.locals) or "") if isinstance(up.func, (ast.Name, ast.Attribute)) else None
+                    cf = graph.funcs.get(callee) if callee else None
+                    if cf is not None and not isinstance(cf.node, ast.Lambda):
+                        ca = cf.node.args
+                        pos = [x.arg for x in ca.posonlyargs + ca.args]
+                        i_ = up.args.index(n)
+                        pname = pos[i_] if i_ < len(pos) else None
+                        if pname and _mutates_param(cf.node, pname):
+                            add("shared-mutable-template", n, False,
+                                "module-level `%s` is passed to %s, which mutates its parameter `%s` in place: the module-level object changes between calls" % (n.id, callee, pname))
         # caches: results shared between calls
         if not is_mod and not isinstance(f.node, ast.Lambda):
             for d in f.node.decorator_list:
@@ -446,6 +493,30 @@ def state_obligations(graph):
                 else:
                     add("mutable-default", f.node, True, "parameter `%s` has a mutable default; the body never mutates it%s" % (arg.arg, " (it is returned: callers are ASSUMED not to mutate the result)" if returned else ""))
     return obs
+
+
+def _mutable_expr(e):
+    if isinstance(e, (ast.Dict, ast.List, ast.Set, ast.ListComp, ast.DictComp, ast.SetComp)):
+        return True
+    if isinstance(e, ast.Call):
+        nm = e.func.id if isinstance(e.func, ast.Name) else (e.func.attr if isinstance(e.func, ast.Attribute) else None)
+        return nm in ("dict", "list", "set", "OrderedDict", "defaultdict", "deque", "bytearray")
+    return False
+
+
+def _mutates_param(fnode, pname):
+    for n in ast.walk(fnode):
+        if isinstance(n, ast.Call) and isinstance(n.func, ast.Attribute) and isinstance(n.func.value, ast.Name) and n.func.value.id == pname and n.func.attr in MUTATORS:
+            return True
+        if isinstance(n, (ast.Assign, ast.AugAssign)):
+            for t in (n.targets if isinstance(n, ast.Assign) else [n.target]):
+                if isinstance(t, ast.Subscript) and isinstance(t.value, ast.Name) and t.value.id == pname:
+                    return True
+        if isinstance(n, ast.Delete):
+            for t in n.targets:
+                if isinstance(t, ast.Subscript) and isinstance(t.value, ast.Name) and t.value.id == pname:
+                    return True
+    return False
 
 
 def _module_level_only(tree):
